@@ -191,6 +191,12 @@ func (r *Run) SaveReplay(name string, content []byte) string {
 	return p
 }
 
+// IsKnown tells whether a fingerprint is a listed finding.
+func (r *Run) IsKnown(v Violation) bool {
+	_, ok := r.known[v.Fingerprint(r.Prop)]
+	return ok
+}
+
 // Violate reports a disagreement observed on the real code.
 func (r *Run) Violate(v Violation) {
 	r.mu.Lock()
